@@ -820,7 +820,10 @@ impl Exec {
                 }
             }
             if proposal != spec_prop {
-                out.oracle_fail("reward-proposal", &format!("p={} proposal={} spec={}", p, proposal, spec_prop));
+                // target = block 1: `competing_proposal_start = max(index - far, 1)` clamps to the target
+                // itself, so its own proposals count as "proposed earlier" (known finding, own class)
+                let class = if t == 1 && proposal < spec_prop { "block1-proposer-share-unpaid" } else { "reward-proposal" };
+                out.oracle_fail(class, &format!("p={} target={} proposal={} spec={}", p, t, proposal, spec_prop));
             }
             self.rewards.insert(t, (txfee, proposal));
             // fees are never over-distributed: over the targets answered so far
